@@ -281,9 +281,9 @@ TRIPLES_Q = [('~', '*', ':'), ('\n', '*', ':'), ('!', '|', '>'), ('~', '*', '\\'
 def triples(thorough):
     if not thorough:
         return TRIPLES_Q
-    segs = ['~', '\n', '!', '\x1c', '+', '\r']
-    eles = ['*', '|', '\x1d', '&', '^']
-    subs = [':', '>', '\\', '\x1e', '!']
+    segs = ['~', '\n', '!', '\x1c', '\r']
+    eles = ['*', '|', '\x1d']
+    subs = [':', '>', '\\', '\x1e']
     return [(s, e, c) for s in segs for e in eles for c in subs if len({s, e, c}) == 3]
 
 
